@@ -689,7 +689,10 @@ class Interp(object):
         if _depth > 8:
             return Top('import cycle %s' % name)
         if name in m.functions and '.' not in name:
-            return Func(m, m.functions[name])
+            f = m.functions[name]
+            if isinstance(f, ast.FunctionDef) and f.decorator_list:
+                return self.decorated(Func(m, f), f, Frame({}, None, m))
+            return Func(m, f)
         if name in m.classes:
             return ClassV(m, m.classes[name])
         if name in m.constants:
@@ -738,15 +741,45 @@ class Interp(object):
         finally:
             self.state, self.depth, self._decisions, self._dpos = saved
 
+    def decorated(self, fv, node, fr):
+        """Apply the decorators of ``node`` (innermost first) to the function value; registration decorators return it unchanged."""
+        for d in reversed(node.decorator_list):
+            text = src(d)
+            if 'register_for' in text or text in ('staticmethod', 'classmethod', 'property'):
+                continue
+            saved = (getattr(self, 'state', None), getattr(self, 'depth', 0), getattr(self, '_decisions', []), getattr(self, '_dpos', 0))
+            try:
+                if saved[0] is None:
+                    self.state, self.depth, self._decisions, self._dpos = State(), 0, [], 0
+                dv = self.expr(d, fr)
+                fv = self.call(dv, [fv])
+            except _Signal:
+                raise Unmodelled('decorator %s' % text)
+            finally:
+                if saved[0] is None:
+                    self.state, self.depth, self._decisions, self._dpos = saved
+        return fv
+
     # -- function calls -----------------------------------------------------------------------------
     def call(self, fv, args, kwargs=None):
         kwargs = kwargs or {}
         if isinstance(fv, Bound):
             return self.call(fv.func, [fv.obj] + list(args), kwargs)
         if isinstance(fv, Func):
+            if fv.attrs.get('<as-registered>') and isinstance(fv.node, ast.FunctionDef) and fv.node.decorator_list:
+                # the function as the registry holds it: with its decorators applied
+                cache = self.__dict__.setdefault('_decorated', {})
+                kk = (fv.module.name, fv.node.lineno)
+                if kk not in cache:
+                    cache[kk] = self.decorated(Func(fv.module, fv.node, fv.closure, fv.name), fv.node, Frame({}, None, fv.module))
+                return self.call(cache[kk], args, kwargs)
             return self.call_func(fv, args, kwargs)
         if isinstance(fv, ClassV):
             return self.instantiate(fv, args, kwargs)
+        if isinstance(fv, Obj):
+            cm = self.get_method(fv, '__call__')
+            if cm is not None:
+                return self.call(cm, args, kwargs)
         if isinstance(fv, Builtin):
             from . import absmodels
             if fv.name.startswith('hx:'):
@@ -834,7 +867,9 @@ class Interp(object):
             vars_[a.kwarg.arg] = DictV([[Const(kk), kwargs[kk]] for kk in unknown])
         elif unknown:
             raise Raised(Exc('TypeError', 'unexpected keyword %s' % unknown))
-        return Frame(vars_, fv.closure, fv.module)
+        fr_ = Frame(vars_, fv.closure, fv.module)
+        fr_.func_node = fv.node         # for zero-argument super()
+        return fr_
 
     def instantiate(self, cv, args, kwargs=None):
         kwargs = kwargs or {}
@@ -986,7 +1021,7 @@ class Interp(object):
                 if s.finalbody:
                     self.block(s.finalbody, fr)
         elif isinstance(s, (ast.FunctionDef,)):
-            fr.vars[s.name] = Func(fr.module, s, fr)
+            fr.vars[s.name] = self.decorated(Func(fr.module, s, fr), s, fr)
         elif isinstance(s, ast.Pass):
             pass
         elif isinstance(s, ast.Break):
@@ -1007,7 +1042,14 @@ class Interp(object):
         elif isinstance(s, ast.Assert):
             if not self.truth(self.expr(s.test, fr), src(s.test)):
                 raise Raised(Exc('AssertionError'))
-        elif isinstance(s, (ast.Global, ast.Nonlocal, ast.Import, ast.ImportFrom)):
+        elif isinstance(s, ast.Nonlocal):
+            # the names are bound in an enclosing function's frame
+            f_ = fr
+            while f_ is not None and getattr(f_, 'func_node', None) is None:
+                f_ = f_.parent
+            holder = f_ if f_ is not None else fr
+            holder.__dict__.setdefault('nonlocals', set()).update(s.names)
+        elif isinstance(s, (ast.Global, ast.Import, ast.ImportFrom)):
             pass
         elif isinstance(s, ast.With):
             self.imprecise('with statement')
@@ -1048,6 +1090,16 @@ class Interp(object):
 
     def assign(self, t, v, fr):
         if isinstance(t, ast.Name):
+            f_ = fr
+            while f_ is not None and getattr(f_, 'func_node', None) is None:
+                f_ = f_.parent
+            if f_ is not None and t.id in getattr(f_, 'nonlocals', ()):
+                p_ = f_.parent
+                while p_ is not None and t.id not in p_.vars:
+                    p_ = p_.parent
+                if p_ is not None:
+                    p_.vars[t.id] = v
+                    return
             fr.vars[t.id] = v
         elif isinstance(t, (ast.Tuple, ast.List)):
             from . import absmodels
@@ -1459,6 +1511,17 @@ class Interp(object):
             args, kwargs = self._args(e, fr)
             if len(args) == 2 and isinstance(args[0], ClassV) and isinstance(args[1], Obj):
                 return SuperV(args[1], args[0])
+            if not args:
+                # zero-argument form: the class that lexically owns the running method, and its first parameter
+                f_ = fr
+                while f_ is not None and getattr(f_, 'func_node', None) is None:
+                    f_ = f_.parent
+                node_ = getattr(f_, 'func_node', None) if f_ is not None else None
+                if node_ is not None and not isinstance(node_, ast.Lambda) and node_.args.args:
+                    owner = f_.module.enclosing_class(node_)
+                    selfv = f_.vars.get(node_.args.args[0].arg)
+                    if owner is not None and isinstance(selfv, Obj):
+                        return SuperV(selfv, ClassV(f_.module, owner))
             raise Unmodelled('super() without arguments')
         fv = self.expr(e.func, fr)
         args, kwargs = self._args(e, fr)
